@@ -25,6 +25,12 @@ type harnessSpec struct {
 	// what a process does only once (one-time initialisation of package-level state, first use
 	// of lazily filled caches) is then executed - under a different schedule - that many more times
 	generations int
+
+	// replaceDirs: /repo-relative package directory -> /verif-relative directory. Every file of the
+	// repo directory (not its sub-directories) is removed from the harness build and the .go files of
+	// the /verif directory take its place: a pure-Go stand-in for a cgo package. The replacement is
+	// already in force for the driver's `go list -export`, so the real package is never compiled.
+	replaceDirs map[string]string
 }
 
 // stageSpec is an additional harness stage of a property.
